@@ -134,6 +134,10 @@ pub struct Inside {
     key: u32,
     chain_at_entry: u64,
     stream_item: Option<(usize, usize)>,
+    /// the operation is being run by a thread that was already unwinding (a Desync dropped during a panic)
+    panicking_at_entry: bool,
+    /// set just before the operation leaves the object in the ordinary way
+    pub completed: bool,
 }
 
 unsafe impl Send for Inside {}
@@ -183,7 +187,7 @@ pub fn enter(val: *mut Val, o: usize, key: u32, stream_item: Option<(usize, usiz
         violation("C14", "wrong_value", &[key], format!("operation {} on object {} was handed the value of object {}", key, o, v.o));
     }
     v.occupant = Some(key);
-    Inside { val, o, key, chain_at_entry: v.chain, stream_item }
+    Inside { val, o, key, chain_at_entry: v.chain, stream_item, panicking_at_entry: rt::kernel::panicking(), completed: false }
 }
 
 impl Drop for Inside {
@@ -191,7 +195,8 @@ impl Drop for Inside {
         if !rt::kernel::in_sim() {
             return;
         }
-        let panicking = rt::kernel::panicking();
+        let _ = self.panicking_at_entry;
+        let panicking = !self.completed && rt::kernel::panicking();
         let s = ev("fin", self.key as i64, panicking as i64);
         let world = w();
         if world.objs[self.o].value_drops > 0 {
@@ -218,7 +223,7 @@ impl Drop for Inside {
             r.fin = Some(s);
             r.waiting_gate = None;
             if r.fin_kind == FinKind::None {
-                r.fin_kind = if panicking { FinKind::Panicked } else { FinKind::Normal };
+                r.fin_kind = if self.completed { FinKind::Normal } else if panicking { FinKind::Panicked } else { FinKind::Cancelled };
             }
         }
     }
@@ -263,11 +268,12 @@ fn run_steps_sync(o: usize, id: u32, body: &[Step]) {
 }
 
 pub fn run_sync_body(val: &mut Val, o: usize, id: u32, body: &[Step]) -> u64 {
-    let _inside = enter(val as *mut Val, o, id, None);
+    let mut inside = enter(val as *mut Val, o, id, None);
     let b0 = blocks_now();
     run_steps_sync(o, id, body);
     // waiting done by the closure itself (nested calls) is not waiting done by the call that runs it
     w().ops[id as usize].blocks_inside += blocks_now() - b0;
+    inside.completed = true;
     token(id)
 }
 
@@ -303,13 +309,15 @@ pub struct BodyFut {
     result: u64,
     _probe: Option<Probe>,
     suspended_once: bool,
+    /// the body itself raised the panic that is destroying it
+    panic_inside: bool,
 }
 
 impl BodyFut {
     /// Called from inside the operation's closure: the operation is inside the object from now on.
     pub fn new(val: &mut Val, o: usize, key: u32, steps: Vec<Step>, result: u64, probe: Option<Probe>, stream_item: Option<(usize, usize)>) -> BodyFut {
         let inside = enter(val as *mut Val, o, key, stream_item);
-        BodyFut { inside: Some(inside), o, key, steps, pc: 0, sub: 0, inner: None, result, _probe: probe, suspended_once: false }
+        BodyFut { inside: Some(inside), o, key, steps, pc: 0, sub: 0, inner: None, result, _probe: probe, suspended_once: false, panic_inside: false }
     }
 }
 
@@ -329,7 +337,9 @@ impl Drop for BodyFut {
                 let world = w();
                 let r = &mut world.ops[self.key as usize];
                 if r.fin_kind == FinKind::None {
-                    r.fin_kind = if rt::kernel::panicking() { FinKind::Panicked } else { FinKind::Cancelled };
+                    // which of the two it is depends on whether this very future is being unwound through;
+                    // a future destroyed by a thread that happens to be unwinding for another reason is cancelled
+                    r.fin_kind = if rt::kernel::panicking() && self.panic_inside { FinKind::Panicked } else { FinKind::Cancelled };
                 }
             }
         }
@@ -347,6 +357,9 @@ impl Future for BodyFut {
             if this.pc >= this.steps.len() {
                 this.pc = this.steps.len() + 1;
                 // leave the object now: the future is complete
+                if let Some(i) = this.inside.as_mut() {
+                    i.completed = true;
+                }
                 this.inside = None;
                 return Poll::Ready(this.result);
             }
@@ -442,6 +455,9 @@ impl Future for BodyFut {
                 }
                 other => {
                     let other = other.clone();
+                    if other == Step::Panic {
+                        this.panic_inside = true;
+                    }
                     run_steps_sync(this.o, this.key, std::slice::from_ref(&other));
                 }
             }
@@ -1109,5 +1125,46 @@ pub fn exec_op(op: &Op) {
         OpKind::SweepDone => rt::kernel::sweep_done(),
         OpKind::Mark => rt::kernel::sweep_mark(),
         OpKind::WaitGate { g } => gate_block_on(*g),
+        OpKind::DropObjPanicking { o } => {
+            let o = *o;
+            let a = {
+                let world = w();
+                if o >= world.objs.len() {
+                    return;
+                }
+                world.objs[o].arc.take()
+            };
+            if let Some(a) = a {
+                let s = ev("table_drop_panicking", o as i64, 0);
+                w().objs[o].table_dropped_at = Some(s);
+                w().cover.drops_while_panicking += 1;
+                struct Owner(usize, Option<Arc<Desync<Val>>>);
+                impl Drop for Owner {
+                    fn drop(&mut self) {
+                        if let Some(a) = self.1.take() {
+                            release(self.0, a);
+                        }
+                    }
+                }
+                let r = catch_unwind(move || {
+                    let _owner = Owner(o, Some(a));
+                    panic!("harness: owner of object {} released while unwinding", o);
+                });
+                let _ = r;
+            }
+        }
+        OpKind::Despawn => {
+            let s0 = ev("despawn_inv", 0, 0);
+            let _ = s0;
+            scheduler().despawn_threads_if_overloaded();
+            ev("despawn_ret", 0, 0);
+            let c = rt::kernel::counters();
+            let live = c.pool_spawned - c.pool_exited;
+            let (phase, max) = {
+                let world = w();
+                (world.phase, world.cur_max)
+            };
+            crate::sim::facts().pool_after_despawn.push((phase, live, max));
+        }
     }
 }
